@@ -832,22 +832,41 @@ where
         let capacity = entries.len();
         let index = (hash as usize) & *mask;
 
-        // Linear probing to find slot
+        // Linear probing. The key may live *behind* a tombstone in its probe chain, so a
+        // tombstone is only remembered here and reused once the end of the chain (an empty
+        // slot) proves that the key is not present; otherwise the key would be stored twice.
+        let mut first_tombstone: Option<usize> = None;
         for i in 0..capacity {
             let probe_index = (index + i) & *mask;
             let entry = &mut entries[probe_index];
 
-            if entry.hash == 0 || entry.hash == u64::MAX {
-                // Empty slot or tombstone, insert here
+            if entry.hash == 0 {
+                // End of the probe chain: the key is absent
+                let slot = first_tombstone.unwrap_or(probe_index);
+                let entry = &mut entries[slot];
                 entry.key = key;
                 entry.value = value;
                 entry.hash = hash;
                 return Ok(None);
+            } else if entry.hash == u64::MAX {
+                // Tombstone: candidate slot, keep searching for the key
+                if first_tombstone.is_none() {
+                    first_tombstone = Some(probe_index);
+                }
             } else if entry.hash == hash && entry.key == key {
                 // Key exists, update value
                 let old_value = std::mem::replace(&mut entry.value, value);
                 return Ok(Some(old_value));
             }
+        }
+
+        // No empty slot on the whole chain: the key is absent, reuse a tombstone if any
+        if let Some(slot) = first_tombstone {
+            let entry = &mut entries[slot];
+            entry.key = key;
+            entry.value = value;
+            entry.hash = hash;
+            return Ok(None);
         }
 
         // Table is full, need to resize
